@@ -731,7 +731,70 @@ def rule_victim_search_attained(ctx: Ctx) -> None:
     need(n >= 1, "C16-2: no threshold search found in any eviction policy (LFU expected)")
 
 
+def rule_hunted(ctx: Ctx) -> None:
+    """Rules distilled from hunted defects (C16-3/C16-4).
+    (a) `CachedStore.delete` writes a dirty value back before it drops the entry (until the backing delete lands, reads fall through to
+        the backing store and must not see a value older than an acknowledged write);
+    (b) after the backing delete has landed, a cache entry for the key that is clean and has no write in flight is dropped (it was
+        re-created during the delete and wiped from the backing store by it);
+    (c) a fill of L1 from a backing fetch in MultiTierCache never replaces an entry L1 already holds or is writing;
+    (d) a SoftTTLCache reader that waited for somebody else's refresh never answers "no such key" without having asked the backing store."""
+    from ..suspend import node_suspension
+
+    prog = ctx.prog
+    d = prog.func(CS, "CachedStore.delete")
+    df = ctx.flow(d)
+    susp = [n_ for n_ in df.cfg.nodes if n_.kind in ("stmt", "test", "for", "with") and node_suspension(prog, d, n_)]
+    need(susp, "C16-3: CachedStore.delete no longer suspends on the backing store")
+    rem = [n_ for n_ in df.cfg.nodes if n_.kind == "stmt" and any(path_of(k.func) == "self._cache_remove" for k in calls_in(n_.ast))]
+    wb = [n_ for n_ in df.cfg.nodes if n_.kind == "stmt" and any(path_of(k.func) == "self._write_back_if_dirty" for k in calls_in(n_.ast))]
+    after_ids: set[int] = set()
+    todo = list(susp)
+    while todo:
+        x_ = todo.pop()
+        for y_, _l in x_.succ:
+            if y_.id not in after_ids:
+                after_ids.add(y_.id)
+                todo.append(y_)
+    before = [r_ for r_ in rem if r_.id not in after_ids]   # removals that precede the suspension on the backing store
+    ok_a = bool(before) and all(not always_before(ctx, d, lambda x: any(x is w_ for w_ in wb), lambda x, r_=r_: x is r_) for r_ in before)
+    ctx.ob("C16-3", "G2", d, before[0].ast if before else None, ok_a, "CachedStore.delete: a (possibly dirty) entry leaves the cache only after `_write_back_if_dirty(key)` — the pending value reaches the backing store before reads start falling through to it")
+    after = [r_ for r_ in rem if r_ not in before]
+    ok_b = len(after) == 1 and df.holds_at(after[0], Fact("in", "key", "self._cache")) and df.holds_at(after[0], Fact("notin", "key", "self._dirty_keys")) and df.holds_at(after[0], Fact("notin", "key", "self._inflight_writes"))
+    ctx.ob("C16-3", "G1", d, after[0].ast if after else None, ok_b, "CachedStore.delete: once the backing delete has landed, an entry re-created meanwhile is dropped iff it is clean and no write for the key is in flight "
+           "(its value was wiped from the backing store by this delete)")
+    cv = prog.func(MT, "MultiTierCache._cache_value")
+    cf = ctx.flow(cv)
+    puts = [n_ for n_ in cf.cfg.nodes if n_.kind == "stmt" and any(isinstance(k.func, ast.Attribute) and k.func.attr == "_cache_put" for k in calls_in(n_.ast))]
+    ok_c = len(puts) == 1
+    if ok_c:
+        for p_ in enumerate_paths(cf, cf.cfg.entry, stop=lambda x: x is puts[0]):
+            if not (p_.end == "stop" and p_.nodes[-1] is puts[0]):
+                continue
+            held = p_.decided(lambda t: t == "target_tier.contains_cached(key)")
+            can_tell = p_.decided(lambda t: t == "hasattr(target_tier,'contains_cached')")
+            writing = p_.decided(lambda t: "_inflight_writes" in t and t.startswith("keyin"))
+            if not ((held is False or can_tell is False) and writing is False):
+                ok_c = False
+    ctx.ob("C16-4", "G1", cv, puts[0].ast if puts else None, ok_c, "MultiTierCache._cache_value fills L1 from a backing fetch only if L1 neither holds the key nor has a write for it in flight (the fetch may predate a put)")
+    g = prog.func(ST, "SoftTTLCache.get")
+    gf = ctx.flow(g)
+    bad = []
+    for p_ in enumerate_paths(gf, gf.cfg.entry):
+        if p_.end != "exit" or p_.decided(lambda t: t == "keyinself._refreshing_keys") is not True:
+            continue
+        rets = [n_ for n_ in p_.nodes if n_.kind == "stmt" and isinstance(n_.ast, ast.Return)]
+        fetched = any(n_.kind == "stmt" and any(isinstance(y, ast.YieldFrom) and path_of(getattr(y.value, "func", None)) == "self._backing_store.get" for y in ast.walk(n_.ast)) for n_ in p_.nodes)
+        rv = rets[-1].ast.value if rets else None
+        none_ret = rv is None or (isinstance(rv, ast.Constant) and rv.value is None)
+        if none_ret and not fetched:
+            bad.append(p_.describe()[-80:])
+    ctx.ob("C16-5", "G1", g, "coalesced reader", not bad, "SoftTTLCache.get: a reader that waited for an in-progress refresh returns the refreshed entry or fetches the key itself — it never reports a miss it has not verified"
+           + ("" if not bad else " — " + bad[0]))
+
+
 def run(ctx: Ctx) -> None:
+    ctx.guarded(rule_hunted)
     ctx.guarded(rule_victim_search_attained)
     ctx.guarded(rule_refresh_marker)
     rule_capacity(ctx)
@@ -744,6 +807,10 @@ def run(ctx: Ctx) -> None:
 
 
 MUTANTS = [
+    ("delete-drops-dirty-without-writeback", CS, '            # Push a pending (write-back) value out first: until the delete lands,\n            # reads fall through to the backing store and must not be served a\n            # value older than this already acknowledged write.\n            self._write_back_if_dirty(key)\n', "", "C16-3"),
+    ("delete-reconcile-ignores-inflight", CS, "            and key not in self._inflight_writes\n", "", "C16-3"),
+    ("multitier-fill-unguarded", MT, "                if hasattr(target_tier, \"contains_cached\") and target_tier.contains_cached(key):\n                    return\n", "", "C16-4"),
+    ("softttl-coalesced-returns-none", ST, "            # The refreshed entry is not (or no longer) there: evicted, invalidated,\n", "            return None\n            # The refreshed entry is not (or no longer) there: evicted, invalidated,\n", "C16-5"),
     ("lfu-evict-trusts-remembered-minimum", EP, "        min_count = min(self._counts.values())\n", "        min_count = self._min_count or min(self._counts.values())\n", "C16-2"),
     ("softttl-marker-kept-when-key-gone", ST, '            try:\n                value = yield from self._backing_store.get(key)\n                if value is not None:\n                    self._store(key, value)\n                    self._refresh_successes += 1\n            finally:\n                self._refreshing_keys.discard(key)\n', '            value = yield from self._backing_store.get(key)\n            if value is None:\n                return None\n            self._store(key, value)\n            self._refresh_successes += 1\n            self._refreshing_keys.discard(key)\n', "C16-5"),
     ("softttl-marker-kept-on-store-error", ST, '            try:\n                value = yield from self._backing_store.get(key)\n                if value is not None:\n                    self._store(key, value)\n                    self._refresh_successes += 1\n            finally:\n                self._refreshing_keys.discard(key)\n', '            value = yield from self._backing_store.get(key)\n            if value is not None:\n                self._store(key, value)\n                self._refresh_successes += 1\n            self._refreshing_keys.discard(key)\n', "C16-5"),
@@ -761,7 +828,7 @@ MUTANTS = [
     # pairing
     ("cachedstore-insert-not-notified", CS, "            self._eviction_policy.on_insert(key)\n        else:\n            self._eviction_policy.on_access(key)", "            pass\n        else:\n            self._eviction_policy.on_access(key)", "C16-2"),
     ("cachedstore-remove-not-notified", CS, "        self._dirty_keys.discard(key)\n        self._eviction_policy.on_remove(key)", "        self._dirty_keys.discard(key)", "C16-2"),
-    ("cachedstore-invalidate-pops-directly", CS, "            self._write_back_if_dirty(key)\n            self._cache_remove(key)", "            self._write_back_if_dirty(key)\n            self._cache.pop(key, None)", "C16-2"),
+    ("cachedstore-invalidate-pops-directly", CS, "        if key in self._cache:\n            self._write_back_if_dirty(key)\n            self._cache_remove(key)", "        if key in self._cache:\n            self._write_back_if_dirty(key)\n            self._cache.pop(key, None)", "C16-2"),
     ("cachedstore-invalidate-all-keeps-policy", CS, "        self._dirty_keys.clear()\n        self._eviction_policy.clear()", "        self._dirty_keys.clear()", "C16-2"),
     ("softttl-invalidate-keeps-order", ST, "            del self._cache[key]\n            if key in self._access_order:\n                self._access_order.remove(key)", "            del self._cache[key]", "C16-2"),
     ("slru-remove-forgets-protected", EP, "        self._probationary.pop(key, None)\n        self._protected.pop(key, None)", "        self._probationary.pop(key, None)", "C16-2"),
@@ -771,7 +838,7 @@ MUTANTS = [
     ("sampled-evict-keeps-key", EP, "        del self._access_times[lru_key]\n        return lru_key", "        return lru_key", "C16-2"),
     # dirty
     ("evict-drops-dirty", CS, "                self._write_back_if_dirty(evict_key)\n", "", "C16-3"),
-    ("invalidate-drops-dirty", CS, "            self._write_back_if_dirty(key)\n            self._cache_remove(key)", "            self._cache_remove(key)", "C16-3"),
+    ("invalidate-drops-dirty", CS, "        if key in self._cache:\n            self._write_back_if_dirty(key)\n            self._cache_remove(key)", "        if key in self._cache:\n            self._cache_remove(key)", "C16-3"),
     ("invalidate-all-drops-dirty", CS, "        for key in sorted(self._dirty_keys):\n            self._write_back_if_dirty(key)\n        self._cache.clear()", "        self._cache.clear()", "C16-3"),
     ("flush-sends-captured-value", CS, "            yield self._backing_store.write_latency\n            if self._write_back_if_dirty(key):\n                flushed += 1", "            value = self._cache[key]\n            yield from self._backing_store.put(key, value)\n            if key not in self._cache or self._cache[key] is value:\n                self._dirty_keys.discard(key)\n            flushed += 1", "C16-3"),
     ("flush-writes-before-latency", CS, "            yield self._backing_store.write_latency\n            if self._write_back_if_dirty(key):\n                flushed += 1", "            if self._write_back_if_dirty(key):\n                flushed += 1\n            yield self._backing_store.write_latency", "C16-3"),
